@@ -9,7 +9,7 @@ from ..terms import fn_terms, fmt, strip_site, walk, const_int, is_const
 from ..query import (loops_of, returns_under, is_variant, linear, leaves_under, pushes_to, mutators_of, ref_key,
                      _resolve_by_eval, iter_source)
 from ..run import where
-from .cell_common import peel
+from .cell_common import peel, elem, canon
 
 COMPACT = "a5::core::compact::compact"
 S = "a5::core::serialization::"
@@ -117,8 +117,9 @@ def run(ctx):
     res_key = ref_key(pp.args[0])
     parent_call = [x for x in walk(pp.args[1]) if x[0] == "call" and x[1] == PARENT][0]
     cell = parent_call[2][0]
-    okcell = peel(cell)[0] == "call" and peel(cell)[1].endswith("::index") and strip_site(peel(peel(cell)[2][0])) == strip_site(cur)
-    cursor = peel(cell)[2][1] if okcell else None
+    ecell = elem(cell)
+    okcell = ecell is not None and strip_site(ecell[0]) == strip_site(cur)
+    cursor = ecell[1] if okcell else None
     tgt = parent_call[2][1]
     run.inst("C08.K2", "parent-of-run-head", okcell and tgt[0] == "agg" and tgt[2].endswith("::None"),
              "pushed parent = cell_to_parent(%s, %s)" % (fmt(cell), fmt(tgt)), where(pp.span))
@@ -166,7 +167,7 @@ def run(ctx):
     okgate = len(gate) == 1 and ((gate[0][2] and 0 in gate[0][3]) or (gate[0][1] and 0 not in gate[0][1]))
     if okgate:
         a0 = gate[0][0][2][0]
-        okgate = strip_site(a0) == strip_site(cell)
+        okgate = canon(strip_site(a0)) == canon(strip_site(cell))
     run.inst("C08.K2", "first-child-gate", okgate, "sibling loop entered only when is_first_child(%s, ..) holds" % (fmt(gate[0][0][2][0]) if gate else "?"), w)
     # the comparison in the loop
     cmpb = None
@@ -194,17 +195,19 @@ def run(ctx):
         return
     b, d = cmpb
     lhs, rhs = d[2], d[3]
-    if not (peel(lhs)[0] == "call" and peel(lhs)[1].endswith("::index")):
+    if elem(lhs) is None:
         lhs, rhs = rhs, lhs
     okidx = False
     whyc = "compares %s with %s" % (fmt(lhs), fmt(rhs))
     j = strip_site(vl.item)
-    if peel(lhs)[0] == "call" and peel(lhs)[1].endswith("::index") and strip_site(peel(peel(lhs)[2][0])) == strip_site(cur):
-        ico, ik = linear(peel(lhs)[2][1])
+    el = elem(lhs)
+    if el is not None and strip_site(el[0]) == strip_site(cur):
+        ico, ik = linear(el[1])
         okidx = ik == 0 and ico == {strip_site(cursor): 1, j: 1}
     rco, rk = linear(rhs)
+    rco = {canon(a): c for a, c in rco.items()}
     stride_atoms = [a for a in rco if a[0] == "bin" and a[1] == "Mul"]
-    okval = rk == 0 and rco.get(strip_site(cell)) == 1 and len(rco) == 2 and len(stride_atoms) == 1
+    okval = rk == 0 and rco.get(canon(strip_site(cell))) == 1 and len(rco) == 2 and len(stride_atoms) == 1
     if okval:
         m = stride_atoms[0]
         fac = [m[2], m[3]]
@@ -213,7 +216,7 @@ def run(ctx):
         okval = len(jj) == 1 and len(st) == 1
         if okval:
             ra = st[0][2][0]
-            okval = ra[0] == "call" and ra[1] == GETRES and strip_site(ra[2][0]) == strip_site(cell)
+            okval = ra[0] == "call" and ra[1] == GETRES and canon(strip_site(ra[2][0])) == canon(strip_site(cell))
     run.inst("C08.K2", "sibling-compare", okidx and okval, whyc + " (must be current[i+j] vs cell + j*get_stride(resolution(cell)))", w)
     # mismatch clears the flag and leaves the loop; no other early exit
     early = [(x, s) for x, s in vl.exits if x != vl.item_switch and ft.blocks[s]["term"]["k"] != "unreachable"]
